@@ -81,6 +81,10 @@ impl TryReadFromBytes for SequenceNumberSet {
         if num_bits > 256 {
             return Err(RtpsMessageError::InvalidData);
         }
+        // Every sequence number the set can hold must be representable
+        if base.checked_add(num_bits as i64).is_none() {
+            return Err(RtpsMessageError::InvalidData);
+        }
         let number_of_bitmap_elements = num_bits.div_ceil(32) as usize; //In standard referred to as "M"
         let mut bitmap = [0; 8];
         for bitmap_i in bitmap.iter_mut().take(number_of_bitmap_elements) {
